@@ -8,6 +8,7 @@ use std::panic::AssertUnwindSafe;
 
 pub struct RealState {
     pub tree: Tree,
+    pub tree2: Tree,
     pub seed: u64,
 }
 
@@ -103,7 +104,7 @@ fn node_named(n: &Option<String>) -> Node {
 
 impl RealState {
     pub fn new() -> Self {
-        RealState { tree: Tree::new(), seed: 0 }
+        RealState { tree: Tree::new(), tree2: Tree::new(), seed: 0 }
     }
 
     /// Executes one request on the real crate.  Returns the answer and, when the model must be sent a
@@ -169,6 +170,40 @@ impl RealState {
                     Ok(a) => ("ok".into(), Some(format!("ar.load\t{a}"))),
                     Err(_) => ("ok".into(), Some("ar.load\t_".into())),
                 }
+            }
+            ["real.build2", how, rose, seed] => {
+                // second tree register: built like `real.build`, then swapped into place
+                let keep = std::mem::replace(&mut self.tree, Tree::new());
+                let (ans, model) = self.exec_inner(&format!("real.build\t{how}\t{rose}\t{seed}"));
+                self.tree2 = std::mem::replace(&mut self.tree, keep);
+                (ans, model.map(|m| m.replacen("ar.load", "ar.load2", 1)))
+            }
+            ["sp", rest @ ..] => {
+                use crate::sp::*;
+                let (a, b) = (&self.tree, &self.tree2);
+                // comparisons run on fresh copies: the caches of the registers must not leak between requests
+                let fa = a.clone();
+                let fb = b.clone();
+                let ans = match rest {
+                    ["parts"] => real_parts(&fa),
+                    ["rf"] => real_rf(&fa, &fb),
+                    ["rfn"] => match real_rfn(&fa, &fb) {
+                        Ok(v) => format!("ok {v}"),
+                        Err(e) => e,
+                    },
+                    ["wrf"] => real_wrf(&fa, &fb),
+                    ["kf2"] => match fa.khuner_felsenstein(&fb) {
+                        Ok(v) => format!("ok sqrt={v}"),
+                        Err(e) => format!("err {}", err_kind(&e)),
+                    },
+                    ["cmp"] => match fa.compare_topologies(&fb) {
+                        Ok(c) => format!("ok {c:?}"),
+                        Err(e) => format!("err {}", err_kind(&e)),
+                    },
+                    ["branches", t] => real_branches(&fa, &fb, *t == "1"),
+                    _ => return bad,
+                };
+                (ans, None)
             }
             ["real.parse", hx] => {
                 let Some(text) = unhex(hx) else { return bad };
